@@ -22,7 +22,9 @@ import sys
 import time
 import traceback
 
-REPO = '/repo'
+# /repo always, except for tools/ that evaluate a seeded change in a scratch worktree (never set by
+# the commands registered in MANIFEST.json)
+REPO = os.environ.get('VF_DEV_REPO_OVERRIDE') or '/repo'
 VERIF = os.path.dirname(os.path.dirname(os.path.abspath(__file__)))
 
 
